@@ -203,6 +203,12 @@ def c15(tier, seed):
                         ['--cfg=churn-scen-%s' % name, '--scenarios=%d' % (150 * scale), '--readers=4', '--updaters=2',
                          '--gps=80', '--reader-sections=150', '--churn=1', '--tun-qs=2', '--tun-wait=2',
                          '--hook-prob=0.01'] + extra, env, cpus=6, timeout=240 * scale))
+    # one reader that very often unregisters straight from the online state, one updater that sleeps at once: nobody
+    # else can wake the grace period
+    out.append(case('churn-pair-qsbr', 'gp', 'qsbr', 'plain',
+                    ['--cfg=churn-pair-qsbr', '--scenarios=%d' % (40 * scale), '--readers=1', '--updaters=1', '--gps=200',
+                     '--reader-sections=0', '--churn=1', '--churn-direct-pct=40', '--tun-qs=1', '--tun-wait=1', '--reader-delay=0',
+                     '--nest=1', '--updaters-registered=0'], {}, cpus=2, timeout=240 * scale))
     for fl in ('memb', 'qsbr'):
         out.append(case('churn-tsan-%s' % fl, 'gp', fl, 'tsan',
                         ['--cfg=churn-tsan-%s' % fl, '--readers=3', '--updaters=2', '--gps=%d' % (400 * scale), '--churn=1',
